@@ -41,7 +41,8 @@ def residue_class(name, evs, start, k):
         S = max([sum(x[-W:]) for x in d] + [0.0])
         t = len(cs)
         r = 64 * 2.220446049250313e-16 * t * H
-        v = fx(evs[k]["v"][0]) if evs[k].get("v") else float("nan")
+        v0 = evs[k]["v"][0] if evs[k].get("v") else None
+        v = fx(v0) if isinstance(v0, dict) and "m" in v0 else float("nan")       # non-finite values are logged as {"k": "inf" | "nan"}
         lo, hi = (-1.0, 1.0) if name == "ChandeMomentumOscillator" else (0.0, 1.0)
         if v != v:
             excess = float("inf")
